@@ -419,8 +419,14 @@ class Diff:
         self.line_monitor = None      # optional: property predicate on each implementation line
         self.monitor_lines = 0
         self.base_timeout = 10
-        self.fail_budget_s = 240      # wall time allowed for isolating + shrinking failures
+        self.fail_budget_s = 240 if ctx.tier == "quick" else 1200   # wall time allowed for isolating + shrinking failures
         self.fail_spent = 0.0
+
+    def _any_report(self):
+        # the time budget for isolating/shrinking failures applies as soon as ANY difference has been
+        # reported (a harmless-looking one included): the verdict is then at least
+        # `no-failing-input-found`, and an unbounded search would make a run on a broken tree endless
+        return self.reports > 0 or self.harmless_reports > 0
 
     def both(self, lines):
         impl, crash, info = run_lines(self.exe, self.hargs, lines, timeout=self.base_timeout + len(lines) // 1000)
@@ -449,7 +455,7 @@ class Diff:
         """named_cases: list of (name, lines).  Returns number of failing cases."""
         if not named_cases:
             return 0
-        if self.reports >= self.max_reports or (self.reports and self.fail_spent > self.fail_budget_s):
+        if self.reports >= self.max_reports or (self._any_report() and self.fail_spent > self.fail_budget_s):
             self.skipped += len(named_cases)     # enough replays exist; the verdict is already VIOLATION
             return 0
         allines = [l for _, c in named_cases for l in c]
@@ -467,13 +473,13 @@ class Diff:
                 self.account(c, model[pos:pos + len(c)])
                 pos += len(c)
             return 0
-        if self.reports >= self.max_reports or (self.reports and self.fail_spent > self.fail_budget_s):
+        if self.reports >= self.max_reports or (self._any_report() and self.fail_spent > self.fail_budget_s):
             self.failing_cases += 1      # at least one more; not isolated (enough replays exist)
             return 1
         t_fail = time.time()
         # isolate: run every case alone (cases are self-contained)
         for name, c in named_cases:
-            if self.reports >= self.max_reports or (self.reports and
+            if self.reports >= self.max_reports or (self._any_report() and
                                                      self.fail_spent + time.time() - t_fail > self.fail_budget_s):
                 break
             impl, crash, info, model = self.both(c)
